@@ -70,6 +70,7 @@ fn gen_card(r: &mut Rng, slow: bool) -> CardCfg {
         timing_seed: r.next_u64(),
         slow,
         gap_after_stop: r.chance(1, 2),
+        ocr_extra: *r.pick(&[0u8, 0, 0x20, 0x01, 0x21]),
         adversary: Adversary::None,
     }
 }
@@ -137,6 +138,7 @@ pub fn gen_case(prop: &str, seed: u64) -> SdCase {
             2 => Adversary::RejectWrite { block_no: r.below(3) as u32, token: *r.pick(&[0x0Bu8, 0x0D]) },
             3 => Adversary::Cmd13Error { nth: r.below(2) as u32, r1: *r.pick(&[0x00u8, 0x04, 0x20, 0x40]), r2: *r.pick(&[0x00u8, 0x01, 0x08, 0x80]) },
             4 => Adversary::BadToken { block_no: r.below(3) as u32, token: *r.pick(&[0x01u8, 0x03, 0x05, 0x09, 0x00, 0x7F, 0xFC]) },
+            5 if prop == "C14" && r.chance(1, 2) => Adversary::TooSlow,
             5 => Adversary::SilentFrom(k),
             6 => Adversary::BusyFrom(k),
             7 => Adversary::GarbageFrom(k),
@@ -151,6 +153,9 @@ pub fn gen_case(prop: &str, seed: u64) -> SdCase {
             if *r1 == 0 && *r2 == 0 {
                 *r2 = 0x01;
             }
+        }
+        if matches!(card.adversary, Adversary::TooSlow) {
+            ops.insert(0, SdOp::Write { block: r.range(0, cap.saturating_sub(8)), n: r.range(1, 4).min(cap) as u8, seed: 9 });
         }
         // make sure there is traffic of the right kind
         if matches!(card.adversary, Adversary::RejectWrite { .. } | Adversary::Cmd13Error { .. }) {
@@ -787,6 +792,7 @@ pub fn enumerated_flip_case(i: u64) -> SdCase {
         timing_seed: i,
         slow: false,
         gap_after_stop: i % 2 == 0,
+        ocr_extra: 0,
         adversary: Adversary::FlipBits { block_no: if multi { 1 } else { 0 }, bits: vec![bit] },
     };
     let ops = if multi { vec![SdOp::Read { block: 5 + i % 50, n: 3 }, SdOp::Read { block: 5 + i % 50, n: 3 }, SdOp::Write { block: 2, n: 2, seed: i as u32 }] } else { vec![SdOp::Read { block: i % 200, n: 1 }, SdOp::Read { block: i % 200, n: 1 }] };
